@@ -23,6 +23,7 @@ import (
 	"fmt"
 	"net/url"
 	"strconv"
+	"sync"
 	"time"
 
 	"github.com/ProtonMail/go-crypto/openpgp"
@@ -103,7 +104,13 @@ func (v *FlagValues) mergeAll(defs *pflag.FlagSet, getter func(string) string) {
 	v.mergeSet(common, getter)
 }
 
+// pflag sorts a FlagSet lazily on its first VisitAll, which is a write:
+// concurrent requests must not walk the shared flag definitions unguarded
+var visitMu sync.Mutex
+
 func (v *FlagValues) mergeSet(defs *pflag.FlagSet, getter func(string) string) {
+	visitMu.Lock()
+	defer visitMu.Unlock()
 	defs.VisitAll(func(flag *pflag.Flag) {
 		value := getter(flag.Name)
 		if value != "" {
